@@ -18,6 +18,7 @@ import (
 	"errors"
 	"fmt"
 	"strconv"
+	"strings"
 	"sync"
 	"sync/atomic"
 	"time"
@@ -100,6 +101,8 @@ type world struct {
 
 	mu      sync.Mutex
 	plans   map[string]*plan // by rq
+	seenIDs []string         // ids of the requests seen last (for look-alike attributes)
+	pad     int              // bytes of padding inside every ordinary response (0: none)
 	rn      atomic.Int64
 	late    atomic.Int64 // delayed peer replies not sent yet
 	serveCh chan error
@@ -241,6 +244,16 @@ func (w *world) answeredInHandler(rq string) bool {
 	return false
 }
 
+// otherID returns the id of another recently seen request (w.mu held).
+func (w *world) otherID(id string) string {
+	for i := len(w.seenIDs) - 1; i >= 0; i-- {
+		if w.seenIDs[i] != id {
+			return w.seenIDs[i]
+		}
+	}
+	return "nobody-else"
+}
+
 func (w *world) nextRN() int { return int(w.rn.Add(1)) }
 
 // markerOf finds the request marker: an rq attribute on the stanza or on its
@@ -286,6 +299,14 @@ func (w *world) onPeer(n *xmltree.Node) {
 	pl := w.plans[rq]
 	w.mu.Unlock()
 	w.log.add(ev{Ev: "seen", RQ: rq, ID: id, Kind: n.Name.Local, Typ: n.Attr("type")})
+	w.mu.Lock()
+	if id != "" {
+		w.seenIDs = append(w.seenIDs, id)
+		if len(w.seenIDs) > 8 {
+			w.seenIDs = w.seenIDs[1:]
+		}
+	}
+	w.mu.Unlock()
 	if pl == nil {
 		return
 	}
@@ -350,7 +371,30 @@ func (w *world) onPeer(n *xmltree.Node) {
 				pl.sentOnce.Do(func() { close(pl.firstSent) })
 				return
 			}
-			w.p.Peer.Write([]byte(fmt.Sprintf("<%s type='%s' id='%s' rn='%d' rq='%s'><r xmlns='%s' rn='%d' rq='%s'><c/><c/></r>%s</%s>", kind, typ, esc(rid), rn, esc(rq), nsV, rn, esc(rq), errEl, kind)))
+			// one reply in three carries, in front of its id, attributes named id
+			// and type in other namespaces (xml:id, q:id, q:type) whose values are
+			// the id of another request and a request type: they are not the
+			// stanza's id and type
+			qual := ""
+			if rn%3 == 0 {
+				w.mu.Lock()
+				other := w.otherID(id)
+				w.mu.Unlock()
+				switch rn % 9 {
+				case 0:
+					qual = fmt.Sprintf(" xml:id='%s'", esc(other))
+				case 3:
+					qual = fmt.Sprintf(" xmlns:q='urn:verif:q' q:id='%s' q:type='get'", esc(other))
+				default:
+					qual = fmt.Sprintf(" xml:id='%s' xmlns:q='urn:verif:q' q:id='%s'", esc(other), esc(other))
+				}
+				w.c.Count("replies_with_qualified_id_attributes_in_front_of_the_id", 1)
+			}
+			pad := ""
+			if w.pad > 0 {
+				pad = "<pad>" + strings.Repeat("p", w.pad) + "</pad>"
+			}
+			w.p.Peer.Write([]byte(fmt.Sprintf("<%s%s type='%s' id='%s' rn='%d' rq='%s'><r xmlns='%s' rn='%d' rq='%s'><c/><c/>%s</r>%s</%s>", kind, qual, typ, esc(rid), rn, esc(rq), nsV, rn, esc(rq), pad, errEl, kind)))
 			pl.sentOnce.Do(func() { close(pl.firstSent) })
 		}
 		switch rs.When {
